@@ -40,7 +40,7 @@ TNext ==
           [] Ev.op = "summary" -> NatSummary(Ev.sarg) /\ Bind(NatDigest(Ev.sarg))
   \/ /\ k > Len(Events) /\ tid < NT
      /\ tid' = tid + 1 /\ k' = 1 /\ obs' = <<>>
-     /\ proc' = [id |-> 1, hash |-> "-", defaults |-> Pristine, frame |-> "pristine"]
+     /\ proc' = [id |-> 1, hash |-> "-", defaults |-> Pristine, frame |-> "pristine", feed |-> "pristine"]
      /\ client' = FreshClient(1) /\ entropy' = 0 /\ seen' = [key \in Keys |-> {}] /\ hist' = <<>>
 TSpec == TInit /\ [][TNext]_tvars
 
